@@ -210,7 +210,7 @@ Fixpoint tbin (r : tail) (m : nat) : binop :=
 Fixpoint sem_operand (x : operand) : Arith.expr :=
   match x with
   | Num t => Lit (num_val t) | Pct t _ _ => Lit (num_val t / (100 # 1))%Q | Paren _ _ _ e _ => sem_expr e
-  | Call _ _ _ _ | Fact _ _ => Lit 0%Q   (* calls and facts are not numeric expressions: excluded by [readable_operand] *)
+  | Call _ _ _ _ | Fact _ _ | NumU _ _ _ => Lit 0%Q   (* calls, facts and quantities with units are not numeric expressions: excluded by [readable_operand] *)
   end
 with sem_expr (e : expr) : Arith.expr :=
   match e with
@@ -227,7 +227,7 @@ with tsem (r : tail) (m : nat) {struct r} : Arith.expr :=
   end.
 
 Fixpoint readable_operand (x : operand) : Prop :=
-  match x with Num t | Pct t _ _ => num_readable t | Paren _ _ _ e _ => readable_expr e | Call _ _ _ _ | Fact _ _ => False end
+  match x with Num t | Pct t _ _ => num_readable t | Paren _ _ _ e _ => readable_expr e | Call _ _ _ _ | Fact _ _ | NumU _ _ _ => False end
 with readable_expr (e : expr) : Prop := match e with Chain x r => readable_operand x /\ readable_tail r end
 with readable_tail (r : tail) : Prop :=
   match r with TNil => True | TCons _ _ _ _ x r' => readable_operand x /\ readable_tail r' | TTo _ _ _ _ _ => False end.   (* no casts: they are not numeric expressions *)
@@ -251,6 +251,7 @@ Proof.
     eexists. split; [reflexivity|]. apply S0_num. apply num_lit_ok. exact Hr.
   - intros t wp pt Hr w. cbn [trees_operand sem_operand]. rewrite nodes_of_app, nodes_of_wsT. cbn.
     eexists. split; [reflexivity|]. apply S0_pct. apply num_lit_ok. exact Hr.
+  - intros t wu u Hr. destruct Hr.
   - intros po pc w1 e IHe w2 Hr w. cbn [readable_operand] in Hr. destruct (IHe Hr w1) as [t [Nt St]].
     exists t. split; [|exact St]. cbn [trees_operand sem_operand].
     rewrite nodes_of_app, nodes_of_wsT. cbn [app]. unfold nodes_of at 1. cbn [filter is_node]. fold (nodes_of (trees_expr w1 e ++ wsT w2 ++ [Tok CLOSE_PAREN pc])).
@@ -275,11 +276,15 @@ Proof.
   - intros wb txt wa u r IHr Hr. destruct Hr.
 Qed.
 
+Lemma readable_no_unit x : readable_operand x -> ends_in_unit x = false.
+Proof. destruct x; cbn; tauto || reflexivity. Qed.
 Lemma readable_wf :
   (forall x, readable_operand x -> wf_operand x) /\ (forall e, readable_expr e -> wf_expr e) /\ (forall r, readable_tail r -> wf_tail r) /\
   (forall a : args, True) /\ (forall m : more, True).
 Proof.
-  apply syntax_mut; cbn [readable_operand readable_expr readable_tail wf_operand wf_expr wf_tail]; tauto.
+  apply syntax_mut; cbn [readable_operand readable_expr readable_tail wf_operand wf_expr wf_tail]; try tauto.
+  - intros x IHx r IHr [Hx Hr]. split; [auto|]. split; [|auto]. intros E. rewrite (readable_no_unit x Hx) in E. discriminate.
+  - intros wb a txt wa x IHx r IHr [Hx Hr]. split; [auto|]. split; [|auto]. intros E. rewrite (readable_no_unit x Hx) in E. discriminate.
 Qed.
 
 (* ---- the theorem ---- *)
